@@ -41,6 +41,15 @@ public:
     endItem.next = 0;
   }
 
+  MultiMap(const MultiMap& other) : _end(&endItem), _begin(&endItem), root(0), _size(0), freeItem(0), blocks(0)
+  {
+    endItem.parent = 0;
+    endItem.prev = 0;
+    endItem.next = 0;
+    for(const Item* i = other._begin.item, * end = &other.endItem; i != end; i = i->next)
+      insert(i->key, i->value);
+  }
+
   ~MultiMap()
   {
     for(Item* i = _begin.item, * end = &endItem; i != end; i = i->next)
@@ -50,6 +59,16 @@ public:
       next = i->next;
       delete[] (char*)i;
     }
+  }
+
+  MultiMap& operator=(const MultiMap& other)
+  {
+    if(this == &other)
+      return *this;
+    clear();
+    for(const Item* i = other._begin.item, * end = &other.endItem; i != end; i = i->next)
+      insert(i->key, i->value);
+    return *this;
   }
 
   const Iterator& begin() const {return _begin;}
